@@ -178,7 +178,7 @@ ATTR_TEXTS = ("#[test]", "#[cfg(test)]", "#[inline]", "#[cfg(not(test))]", "#[de
 def h_context_kinds(ctx):
     from vsym.nodes import Duck
     from vsym.pathex import If
-    from vsym.symkind import SKind, SymSet, kind_table
+    from vsym.symkind import SKind, kind_table, symbolic_tables
     import src.linters.clone_abuse.rust_analyzer as clone_mod
     from src.analyzers import rust_context
     table = kind_table("rust")
@@ -195,7 +195,8 @@ def h_context_kinds(ctx):
         below = anc
         below_sibs = [Duck(attr_kinds[i], attr_texts[i])] if (i < depth and has_attr[i]) else []
     # ---- test context
-    got_test = rust_context.is_inside_test(call)
+    with symbolic_tables(rust_context):
+        got_test = rust_context.is_inside_test(call)
 
     def attr_is(i, texts):
         if not has_attr[i]:
@@ -210,12 +211,8 @@ def h_context_kinds(ctx):
     ctx.require("test-context-iff-enclosing-test-fn-or-cfg-test-mod", Eq(got_test, want_test),
                 attrs=[t for t in attr_texts if t])
     # ---- loop context (clone-abuse)
-    saved = clone_mod._LOOP_NODE_TYPES
-    try:
-        clone_mod._LOOP_NODE_TYPES = SymSet(saved)
+    with symbolic_tables(clone_mod, clone_mod.RustCloneAnalyzer):
         got_loop = clone_mod.RustCloneAnalyzer()._is_inside_loop(call)
-    finally:
-        clone_mod._LOOP_NODE_TYPES = saved
     want_loop = Or(*[k.is_one_of(("for_expression", "while_expression", "loop_expression")) for k in kinds])
     ctx.require("loop-context-iff-an-ancestor-is-a-loop", Eq(got_loop, want_loop))
 
